@@ -304,3 +304,36 @@ def ref_matrix(it, p):
     R, t = ref_R_t(it, p)
     n = len(t)
     return Arr([R[i] + [t[i]] for i in range(n)] + [[Poly.const(0)] * n + [Poly.const(1)]], 2)
+
+
+# ---------------------------------------------------------------------------------------------- results handed out by reference
+_SCRIBBLE = [0]
+
+
+def snapshot(v):
+    """A deep copy of an array / list of arrays (the value a caller saw when the call returned)."""
+    from .interp import Arr as _Arr
+    if isinstance(v, _Arr):
+        return _Arr([list(r) for r in v.data] if v.ndim == 2 else list(v.data), v.ndim)
+    if isinstance(v, (list, tuple)):
+        return [snapshot(x) for x in v]
+    return v
+
+
+def scribble(v):
+    """Overwrite, in place, every entry of a returned array (what a caller does with `J *= w`, `J[0, 0] = ...`): any later call
+    that hands out the same storage is then visibly wrong."""
+    from .interp import Arr as _Arr
+    if isinstance(v, _Arr):
+        _SCRIBBLE[0] += 1
+        junk = Poly.var("caller_wrote#%d" % _SCRIBBLE[0])
+        if v.ndim == 2:
+            for r in v.data:
+                for j in range(len(r)):
+                    r[j] = junk
+        else:
+            for j in range(len(v.data)):
+                v.data[j] = junk
+    elif isinstance(v, (list, tuple)):
+        for x in v:
+            scribble(x)
